@@ -453,6 +453,10 @@ func appendSlice(expr ast.Expr, lhsV reflect.Value, rhsV reflect.Value) (reflect
 	}
 
 	if !leftHasSubArray && !rightHasSubArray {
+		// convert every element before the first is appended: an append may write
+		// into spare capacity the left operand shares with other slices, and a
+		// failing operation must leave them as they were
+		values := make([]reflect.Value, 0, rhsV.Len())
 		for i := 0; i < rhsV.Len(); i++ {
 			value := rhsV.Index(i)
 			if rhsT == interfaceType {
@@ -463,17 +467,18 @@ func appendSlice(expr ast.Expr, lhsV reflect.Value, rhsV reflect.Value) (reflect
 				return nilValue, newStringError(expr, "invalid type conversion")
 			}
 			if lhsT == value.Type() {
-				lhsV = reflect.Append(lhsV, value)
+				values = append(values, value)
 			} else if value.Type().ConvertibleTo(lhsT) {
-				lhsV = reflect.Append(lhsV, value.Convert(lhsT))
+				values = append(values, value.Convert(lhsT))
 			} else {
 				return nilValue, newStringError(expr, "invalid type conversion")
 			}
 		}
-		return lhsV, nil
+		return reflect.Append(lhsV, values...), nil
 	}
 
 	if (leftHasSubArray || lhsT == interfaceType) && (rightHasSubArray || rhsT == interfaceType) {
+		values := make([]reflect.Value, 0, rhsV.Len())
 		for i := 0; i < rhsV.Len(); i++ {
 			value := rhsV.Index(i)
 			if rhsT == interfaceType {
@@ -486,9 +491,9 @@ func appendSlice(expr ast.Expr, lhsV reflect.Value, rhsV reflect.Value) (reflect
 			if err != nil {
 				return nilValue, err
 			}
-			lhsV = reflect.Append(lhsV, newSlice)
+			values = append(values, newSlice)
 		}
-		return lhsV, nil
+		return reflect.Append(lhsV, values...), nil
 	}
 
 	return nilValue, newStringError(expr, "invalid type conversion")
